@@ -1,7 +1,12 @@
 use atone::Vc;
 use iggy::utils::byte_size::IggyByteSize;
 use std::path::{Path, PathBuf};
+#[cfg(not(kani))]
 use tokio::fs::{read_dir, remove_file, File, OpenOptions};
+#[cfg(kani)]
+use iggy::verif_model::fs::{read_dir, remove_file, File, OpenOptions};
+#[cfg(kani)]
+use iggy::verif_model::shim as tokio;
 
 pub async fn open(path: &str) -> Result<File, std::io::Error> {
     OpenOptions::new().read(true).open(path).await
